@@ -52,7 +52,7 @@ def parseGenesis : List String → List (Addr × Int) × List (Addr × Int)
   | _ :: rest => parseGenesis rest
   | [] => ([], [])
 
-def initState (toks : List String) (mods : List String) : State × List (Addr × Int) :=
+def initState (toks : List String) (mods keys : List String) : State × List (Addr × Int) :=
   let (accs, vals) := parseGenesis toks
   let i := intOf toks
   let p : Params := {
@@ -61,29 +61,10 @@ def initState (toks : List String) (mods : List String) : State × List (Addr ×
     maxMemo := Posmint.Generated.defaultMaxMemoCharacters,
     feeChangeParam := Posmint.Generated.govFeeChangeParam, feeDao := Posmint.Generated.govFeeDAOTransfer,
     feeUpgrade := Posmint.Generated.govFeeUpgrade }
-  let pool := mods.getD 0 ""
-  let s0 : State := {
-    bal := [], supply := 0, vals := [], idx := [], prev := [], prevTot := 0, queue := [], sign := [], missedBits := [],
-    awards := [], burns := [], proposer := "", rel := [], p := p,
-    acl := allParamNames.map (fun n => (n, kvOf toks "aclo")), daoOwner := kvOf toks "daoo",
-    pool := pool, feeAcc := mods.getD 1 "", posAcc := mods.getD 2 "", daoAcc := mods.getD 3 "",
-    keys := [], height := 0, time := 0, cHeight := 0, cTime := 0 }
-  -- accounts (every genesis account carries its key)
-  let s1 := accs.foldl (fun st e => { setBal st e.1 e.2 with supply := st.supply + e.2 }) s0
-  -- validators: staked, indexed, signing info from height 0; pool holds the stake
-  let s2 := vals.foldl (fun st e =>
-    let v : Val := { status := 2, jailed := false, tokens := e.2, unstake := 0 }
-    let st1 := setStaked (setVal st e.1 v) e.1 v
-    let st2 := { st1 with sign := aset st1.sign e.1 { start := 0, offset := 0, missed := 0, jailedUntil := 0, tomb := false },
-                          rel := e.1 :: st1.rel, supply := st1.supply + e.2 }
-    setBal st2 pool (balOf st2 pool + e.2)) s1
-  -- gov genesis mints the DAO tokens
-  let s3 := mint s2 s2.daoAcc (i "daot")
-  -- InitGenesis runs UpdateTendermintValidators with the default MaxValidators
-  let sDef := { s3 with p := { s3.p with maxVals := Posmint.Generated.defaultMaxValidators } }
-  match updateValidators sDef with
-  | some (s4, ups) => ({ s4 with p := p }, ups)
-  | none => (s3, [])
+  genesis { accs := accs, vals := vals, p := p, daoTokens := i "daot", daoOwner := kvOf toks "daoo", aclOwner := kvOf toks "aclo",
+            paramNames := allParamNames, pool := mods.getD 0 "", feeAcc := mods.getD 1 "", posAcc := mods.getD 2 "",
+            daoAcc := mods.getD 3 "", keys := (List.range keys.length).zip keys,
+            defaultMaxVals := Posmint.Generated.defaultMaxValidators }
 
 def parseVotes (s : String) : List Vote :=
   if s == "-" || s == "" then [] else
@@ -124,8 +105,7 @@ def stepChain (pr : ChainProg) (toks : List String) : ChainProg × String :=
     -- module account addresses and the key table are passed on the line: mods=<a,b,c,d> keys=<a,...>
     let mods := (kvOf rest "mods").splitOn ","
     let keys := (kvOf rest "keys").splitOn ","
-    let (s, ups) := initState rest mods
-    let s := { s with keys := (List.range keys.length).zip keys }
+    let (s, ups) := initState rest mods keys
     ({ st := some s }, s!"ok ups={showUps ups} | {showState s}")
   | _ =>
     match pr.st with
